@@ -652,8 +652,11 @@ def rule_G7(prog, fixture=False):
                 okp, how = _params_attainable(prog, f, ctx, wit[0], node)
                 if not okp:
                     wit = None
-                incomplete.append("the failing instance needs argument values that no public entry point is known to pass down")
-            if wit is not None and not _opaque_rejecting_call(prog, f, node, relevant):
+                    incomplete.append("the failing instance needs argument values that no public entry point is known to pass down")
+            if wit is not None and _opaque_rejecting_call(prog, f, node, relevant):
+                wit = None
+                incomplete.append("a call that may reject receives one of the quantities before the subscript")
+            if wit is not None:
                 res.add(okey, VIOLATED, where, what,
                         "for %s every live check and loop bound at this point holds, and the index %s = %s is %s the container "
                         "(size %s)%s" % (", ".join("%s = %s" % (_pretty(a), v) for a, v in sorted(wit[0].items()) if not a.startswith("(")),
@@ -662,7 +665,7 @@ def rule_G7(prog, fixture=False):
             else:
                 why = "not proved (%s bound)" % gname
                 if incomplete:
-                    why += "; checks outside the linear fragment: %s" % "; ".join(incomplete[:2])
+                    why += "; not refuted either: %s" % "; ".join(incomplete[:2])
                 res.add(okey, UNMODELLED, where, what, why, func=f.name, extra=extra)
     res.stats["affine_subscripts"] = n_sites
     if not n_sites and not fixture:
